@@ -87,6 +87,29 @@ func c12Producer(r *Run, t *tape.Tape) {
 		raws := [][]byte{{0xa0}, {0xa1, 0x04, 0x41, 0x31}, {0xa1, 0x03, 0x18, 0x2a}, {0xa1, 0x19, 0x01, 0x02, 0x26}, {0xa1, 0x19, 0x01, 0x03, 0x01}, {0xa1, 0x19, 0x01, 0x04, 0x61, 0x78}}
 		h.RawUnprotected = raws[t.Choose(len(raws), "c12.rawunprot.v")]
 		class += "+rawunprot"
+		if t.Bool(1, 3, "c12.rawunprot.ivpair") {
+			// a cross-bucket rule of RFC 9052 section 3.1 that can only be
+			// judged with the raw bucket decoded: IV in one bucket, Partial IV
+			// in the other (an envelope like that is refused by every decoder)
+			a, b := int64(refcose.LIV), byte(refcose.LPartialIV)
+			if t.Bool(1, 2, "c12.rawunprot.ivpair.swap") {
+				a, b = int64(refcose.LPartialIV), byte(refcose.LIV)
+			}
+			if h.Protected == nil {
+				h.Protected = cose.ProtectedHeader{}
+			}
+			for _, l := range []int64{refcose.LIV, refcose.LPartialIV} {
+				for k := range h.Protected {
+					if v, ok := asInt64(k); ok && v == l {
+						delete(h.Protected, k)
+					}
+				}
+			}
+			h.Protected[a] = []byte{1, 2, 3}
+			h.RawProtected = nil
+			h.RawUnprotected = []byte{0xa1, b, 0x42, 0x09, 0x09}
+			class += "+iv-pair-across-buckets"
+		}
 	}
 	ent := NewEntropy(uint64(t.U32("entropy.seed")))
 	signer := r.signerFor(key, false)
@@ -423,6 +446,8 @@ func removeLabel(b Bucket, label int64) Bucket {
 // a uint8) or float-like.
 func oddScalars() []*refcbor.Item {
 	return []*refcbor.Item{
+		refcbor.Tag(32, refcbor.Tstr("https://example.test/tagged")), // a URI, but tagged: not a tstr
+		refcbor.Tag(1, refcbor.Int(-16)),
 		{Major: refcbor.MSimple, Arg: 16},
 		{Major: refcbor.MSimple, Arg: 255, Width: 1},
 		refcbor.Undefined(),
